@@ -306,7 +306,22 @@ def run(scenario, tape_values):
         await trio.sleep_until(horizon + interval / 4)
         world.log("horizon")
 
+    async def factory_observer(world):
+        # after every boundary: who is active, what do they demand, what was requested
+        for k in range(1, periods + 1):
+            await trio.sleep_until(start + k * interval + interval / 16)
+            fp = ctx["service"]
+            if fp is None:
+                continue
+            try:
+                active = sorted((c.name, c._demand) for c in fp._hatchery)
+            except AttributeError:
+                return
+            world.log("factory-state", k=k, active=active, requested=fp._demand)
+
     async def main(world, nursery):
+        if kind == "factory":
+            nursery.start_soon(factory_observer, world, name="observer")
         await env(world, nursery)
 
     world.run(main)
@@ -495,7 +510,21 @@ def _oracle(world, sc, kind, interval, periods, start, params, horizon):
                 V("C09/buffer-stale", "after the window boundary t=%r the target's demand is %r, most recently written was %r" % (t, after_demand, lw))
                 return
     if kind == "factory":
-        for t in expected:
-            b = by_t[t][0]
-            # judged by effect: after the adjustment the active demand covers the request when it grew
-            pass
+        # one adjustment's worth of effect at every boundary (details are C15's): afterwards no active child is
+        # left without demand (both branches of an adjustment reap; whether it grows or shrinks enough is C15's).  Boundaries at which the environment
+        # acted in the same instant *after* the adjustment are skipped (either order is legitimate).
+        for e in ev:
+            if e["kind"] != "factory-state":
+                continue
+            t = start + e["k"] * interval
+            bs = by_t.get(t, [])
+            if not bs:
+                continue
+            last_svc = bs[-1]["events"][-1]["seq"]
+            if any(x["t"] == t and x["seq"] > last_svc and x.get("op") in ("write", "child-zero", "child-state") for x in ev):
+                continue
+            idle = [n for n, d in e["active"] if d <= 0]
+            if idle:
+                V("C09/factory-adjustment-effect/idle-child-kept", "after the adjustment at t=%r child %s has no demand left but is still active" % (t, idle[0]))
+                return
+
